@@ -216,181 +216,4 @@ Proof.
            ++ rewrite KK. intros R C HR HC. rewrite D10.
               apply (shifted_scroll_up (cells s3) (cells s0) (fun r c => if (r =? vr) && (c =? vc) then ch else g r c)
                        H W T B (Z.max 0 (vr - B))); auto.
-              ** clear - G3 G4 G5. lia.
-              ** intros C'. apply B3. clear - HvB. lia.
-           ++ intros r c Hr. apply B3. clear - Hr. lia.
-           ++ intros r Hr _. assert (r = B) by (clear - Hr D7; lia). subst r.
-              rewrite Hfl by (clear - HvB; lia). exact WS5.
-      * (* no flag: pending overflow *)
-        rewrite wrap_scroll_noop by (setters; proj; try lia; auto).
-        constructor.
-        -- exact F9.
-        -- exact P3.
-        -- exact F1.
-        -- setters. proj. rewrite F3. auto.
-        -- right. setters. proj. lia.
-        -- exact C3.
-        -- exact B3.
-        -- intros r Hr Hov. setters. proj. rewrite F3 in Hr, Hov.
-           assert (r <> row s) by (intro E; specialize (Hov E); discriminate).
-           change (wraps_at s3 r = fl (r + Z.max 0 (vr - B))).
-           rewrite WS3. apply Hflags; [lia|]. intros E. contradiction.
-  - (* pending overflow: the character goes to the first cell of the next row *)
-    replace (vc >? W) with true by lia. cbv zeta.
-    replace (1 =? W) with false by lia. cbn [andb].
-    unfold write_char.
-    rewrite (consume_pending_gen s Ho) by lia.
-    destruct (after_pending_facts s HGG ltac:(lia)) as (P1 & Q1 & Q2 & Q3 & Q4 & Q5 & Q6 & Q7 & Q8).
-    set (s1 := set_rc (after_pending s) (row s + 1) 1) in *.
-    destruct (env_fields s s1 Q6) as (X1 & X2 & X3 & X4).
-    assert (F10 : same_env s0 s1) by (eapply same_env_trans; eauto).
-    assert (F1 : bra s1 = false) by congruence.
-    destruct (Z_le_gt_dec (row s + 1) B) as [Hle | Hgt].
-    + rewrite (wrap_scroll_noop true s1 F1) by lia.
-      set (s3 := b_put s1 (row s1) (col s1) ch).
-      assert (P3 : GG s3) by (apply GG_put; auto; lia).
-      assert (K0 : Z.max 0 (vr - B) = 0 /\ Z.max 0 (vr + 1 - B) = 0) by lia.
-      destruct K0 as [K0 K1].
-      assert (E4 : col s3 <? width s3 = true) by (unfold s3, b_put; setters; proj; lia).
-      rewrite E4.
-      rewrite wrap_scroll_noop by (unfold s3, b_put; setters; proj; try lia; auto).
-      constructor; unfold s3, b_put; setters; proj; auto.
-      * lia.
-      * left. lia.
-      * intros R C HR HC. proj. rewrite Q2, Q3, Q4, K1.
-        rewrite (get_put (cells s) H W) by (auto; lia).
-        rewrite (Hcells R C HR HC). rewrite K0. fold T B.
-        destruct ((T <=? R) && (R <=? B)) eqn:EW1.
-        -- replace (R + 0 =? vr + 1) with (R =? row s + 1) by lia. reflexivity.
-        -- replace (R =? row s + 1) with false by lia. reflexivity.
-      * intros r c Hr. replace (r =? vr + 1) with false by lia. cbn [andb]. apply Hbelow. lia.
-      * intros r Hr _. rewrite K1. change (wraps_at s1 r = fl (r + 0)).
-        rewrite Q8 by lia. rewrite (Hflags r) by (try lia; intros; lia). rewrite K0. reflexivity.
-    + assert (Hrb : row s = B) by lia.
-      rewrite (wrap_scroll_scrolls s1 F1) by lia.
-      set (s2 := set_row (b_scroll_up s1 (top s1) (bot s1)) (bot s1)).
-      assert (P2 : GG s2) by (apply (GG_scroll_up s1 (top s1) (bot s1) P1); lia).
-      assert (F2' : bra s2 = false /\ col s2 = 1 /\ width s2 = W /\ height s2 = H /\ top s2 = T /\ bot s2 = B
-                    /\ row s2 = B /\ ovf s2 = false /\ same_env s0 s2
-                    /\ cells s2 = scroll_up_l W (cells s) T B).
-      { unfold s2, b_scroll_up. setters. proj. rewrite X1, X3, X4, Q4, EW, ET, EB.
-        repeat split; auto; try lia; try apply F10. }
-      destruct F2' as (A1 & A2 & A3 & A4 & A5 & A6 & A7 & A8 & A9 & A10).
-      set (s3 := b_put s2 (row s2) (col s2) ch).
-      assert (P3 : GG s3) by (apply GG_put; auto; lia).
-      assert (KK : Z.max 0 (vr + 1 - B) = Z.max 0 (vr - B) + 1) by lia.
-      assert (E4 : col s3 <? width s3 = true) by (unfold s3, b_put; setters; proj; lia).
-      rewrite E4.
-      rewrite wrap_scroll_noop by (unfold s3, b_put; setters; proj; try lia; auto).
-      constructor; unfold s3, b_put; setters; proj; auto.
-      * lia.
-      * left. lia.
-      * intros R C HR HC. proj. rewrite A2, A7, A10, KK.
-        assert (Hsh : shape (scroll_up_l W (cells s) T B) H W) by (apply shape_scroll_up; auto; lia).
-        rewrite (get_put _ H W) by (auto; lia).
-        rewrite (get_scroll_up (cells s) H W) by (try apply Hshape; lia). fold T B.
-        destruct ((T <=? R) && (R <=? B)) eqn:EW1.
-        -- destruct ((R =? B) && (C =? 1)) eqn:EP.
-           ++ replace (R + (Z.max 0 (vr - B) + 1) =? vr + 1) with true by lia.
-              replace (C =? 1) with true by lia. reflexivity.
-           ++ destruct ((T <=? R) && (R <? B)) eqn:EW2.
-              ** rewrite (Hcells (R + 1) C) by lia. fold T B.
-                 replace ((T <=? R + 1) && (R + 1 <=? B)) with true by lia.
-                 replace (R + (Z.max 0 (vr - B) + 1) =? vr + 1) with false by lia. cbn [andb].
-                 f_equal. lia.
-              ** replace (R =? B) with true by lia.
-                 replace (R =? B) with true in EP by lia. cbn [andb] in EP. rewrite EP.
-                 rewrite andb_false_r. symmetry. apply Hbelow. lia.
-        -- replace ((R =? B) && (C =? 1)) with false by lia.
-           replace ((T <=? R) && (R <? B)) with false by lia.
-           replace (R =? B) with false by lia.
-           rewrite (Hcells R C HR HC). fold T B. rewrite EW1. reflexivity.
-      * intros r c Hr. replace (r =? vr + 1) with false by lia. cbn [andb]. apply Hbelow. lia.
-      * intros r Hr _. rewrite A7 in Hr. assert (r = B) by lia. subst r.
-        rewrite Hfl by lia.
-        change (wraps_at (b_scroll_up s1 (top s1) (bot s1)) B = false).
-        rewrite X3, X4, ET, EB. apply wraps_scroll_up_bottom; try lia.
-        rewrite X2, EH, Q7. exact Hwl.
-Qed.
-
-Lemma rel2_steps str : forall s g vr vc, rel2 s g vr vc ->
-  rel2 (write_chars false s str) (fst (layoutw W fl g vr vc str)) (fst (snd (layoutw W fl g vr vc str)))
-       (snd (snd (layoutw W fl g vr vc str))).
-Proof.
-  induction str as [|ch t IH]; intros s g vr vc Hrel.
-  - exact Hrel.
-  - cbn [layoutw]. cbv zeta. pose proof (rel2_step s g vr vc ch Hrel) as St. cbv zeta in St.
-    destruct (((if vc >? W then 1 else vc) =? W) && fl (if vc >? W then vr + 1 else vr));
-      apply (IH (write_char false s ch)); exact St.
-Qed.
-
-End Placement.
-
-(* the continuation flags ahead, by virtual row: those of the start screen down to the window bottom *)
-Definition flags0 (s0 : st) : Z -> bool := fun v => if v <=? bot s0 then wraps_at s0 v else false.
-
-Lemma rel2_init s0 : INV s0 -> bra s0 = false -> top s0 <= row s0 <= bot s0 ->
-  (ovf s0 = true -> col s0 = width s0) ->
-  rel2 s0 (flags0 s0) s0 (page0 s0) (row s0) (if ovf s0 then width s0 + 1 else col s0).
-Proof.
-  intros [[Hg Hgr] [Hr Hc]] Hb Hrow Hov.
-  assert (K0 : Z.max 0 (row s0 - bot s0) = 0) by lia.
-  constructor.
-  - apply same_env_refl.
-  - split; auto.
-  - exact Hb.
-  - lia.
-  - destruct (ovf s0) eqn:E; [right; auto | left; auto].
-  - intros R C HR HC. rewrite K0. unfold page0. cbv beta.
-    destruct ((top s0 <=? R) && (R <=? bot s0)) eqn:E; auto.
-    replace (R + 0 <=? bot s0) with true by lia. f_equal. lia.
-  - intros r c Hgt. unfold page0. cbv beta. replace (r <=? bot s0) with false by lia. reflexivity.
-  - intros r Hr1 _. rewrite K0. unfold flags0. replace (r + 0 <=? bot s0) with true by lia. f_equal. lia.
-Qed.
-
-(* ---- layoutw versus layout: the same characters at the same places; only the final position is normalised *)
-Lemma layout_pending_next W g vr ch t : 1 <= W ->
-  layout W g vr (W + 1) (ch :: t) = layout W g (vr + 1) 1 (ch :: t).
-Proof.
-  intros HW. cbn [layout]. cbv zeta.
-  replace (W + 1 >? W) with true by lia. replace (1 >? W) with false by lia. reflexivity.
-Qed.
-
-Lemma layoutw_grid W fl str : 2 <= W -> forall g vr vc,
-  fst (layoutw W fl g vr vc str) = fst (layout W g vr vc str).
-Proof.
-  intros HW. induction str as [|ch t IH]; intros g vr vc; [reflexivity|].
-  cbn [layoutw layout]. cbv zeta.
-  set (vr1 := if vc >? W then vr + 1 else vr). set (vc1 := if vc >? W then 1 else vc).
-  destruct ((vc1 =? W) && fl vr1) eqn:E; [|apply IH].
-  rewrite IH. assert (vc1 = W) by lia. rewrite H.
-  destruct t as [|ch' t']; [reflexivity|]. rewrite layout_pending_next by lia. reflexivity.
-Qed.
-
-Definition norm_pos (W : Z) (fl : Z -> bool) (p : Z * Z) : Z * Z :=
-  if (snd p =? W + 1) && fl (fst p) then (fst p + 1, 1) else p.
-
-Lemma layoutw_pending_next W fl g vr ch t : 2 <= W ->
-  layoutw W fl g vr (W + 1) (ch :: t) = layoutw W fl g (vr + 1) 1 (ch :: t).
-Proof.
-  intros HW. cbn [layoutw]. cbv zeta.
-  replace (W + 1 >? W) with true by lia. replace (1 >? W) with false by lia. reflexivity.
-Qed.
-
-Lemma layoutw_pos W fl str : 2 <= W -> str <> [] -> forall g vr vc, 1 <= vc <= W + 1 ->
-  snd (layoutw W fl g vr vc str) = norm_pos W fl (snd (layout W g vr vc str)).
-Proof.
-  intros HW. induction str as [|ch t IH]; intros Hne g vr vc Hvc; [congruence|].
-  cbn [layoutw layout]. cbv zeta.
-  set (vr1 := if vc >? W then vr + 1 else vr). set (vc1 := if vc >? W then 1 else vc).
-  assert (Hv1 : 1 <= vc1 <= W) by (unfold vc1; destruct (vc >? W) eqn:E; lia).
-  destruct t as [|ch' t'].
-  - cbn [layoutw layout snd fst]. unfold norm_pos. cbn [fst snd].
-    replace (vc1 + 1 =? W + 1) with (vc1 =? W) by lia.
-    destruct ((vc1 =? W) && fl vr1); reflexivity.
-  - destruct ((vc1 =? W) && fl vr1) eqn:E.
-    + assert (vc1 = W) by lia. rewrite H.
-      rewrite <- (layoutw_pending_next W fl _ vr1 ch' t' HW).
-      apply IH; [congruence | lia].
-    + apply IH; [congruence | lia].
-Qed.
+Show.
